@@ -7,11 +7,11 @@ META = {
     "level": "model_checking",
     "technique": "TLA+ spec of core.BlockChain's canonical-chain bookkeeping (Chain.tla) model-checked with TLC; TLC behaviours replayed on a real core.BlockChain (hash and path scheme); recorded random histories validated against ChainTrace.tla with all invariants",
     "text": "Chain.tla models InsertChain (known-block trimming, side-chain import on a pruned ancestor, processing), InsertBlockWithoutSetHead, SetCanonical, reorg, writeHeadBlock, SetHead/rewindHead and a clean restart over a block tree with competing branches and shared transactions. TLC checks on all trees of the bound and all call orders that the number index is a parent-linked chain containing the heads, the head state is available, the head header is at or above the head block, transaction/receipt lookups (database and GetCanonicalTransaction cache) resolve exactly to canonical blocks, and that removed/added log events describe the switch. TLC-sampled behaviours are executed on a real BlockChain built from core.GenerateChain forks and the projected database/chain state and the four event feeds are compared after every call; seeded random histories with restarts are recorded from the real chain and TLC checks each is a behaviour of the specification with the invariants evaluated after every real call.",
-    "note": "Trusts TLC and the projection in harness/cmd/c38. Memory database, ethash faker, no snapshots in hash scheme, tx indexer limit 0 on a database already marked indexed (the indexer's first run is scheduled by a racy select and cannot be awaited). Three candidate findings (NOTES.md C38-F1..F3) are reproduced on the real code on every run and reported as pending; the corresponding strict invariants are checked only outside those fingerprints (TODO-KNOWN-FINDING).",
+    "note": "Trusts TLC and the projection in harness/cmd/c38. Memory database, ethash faker, no snapshots in hash scheme, tx indexer limit 0 on a database already marked indexed (the indexer's first run is scheduled by a racy select and cannot be awaited). Three open findings (known_findings.json C38-F1..F3, NOTES.md) are reproduced on the real code from kept replays on every run and reported through ctx.known_finding; in the specification the corresponding strict invariants are conditioned on the ghost fingerprints of exactly those behaviours (gh.f1, gh.kb, gh.rx), everything else is strict.",
     "design_ref": "3.6 C38",
 }
 
-FINDINGS = [  # TODO-KNOWN-FINDING: pending coordinator decision (fix: commit or known_findings.json)
+FINDINGS = [  # open entries of known_findings.json; the kept replays must still reproduce exactly these violations
     ("C38-F1", "chain/findings/C38-F1.json", ("CanonLinked", "CanonEndsAtHead", "LookupSound", "LookupComplete", "CacheCoherent"),
      "number index / lookup cache keep entries of the abandoned branch when a head is written without reorg while the head header is above the head block"),
     ("C38-F2", "chain/findings/C38-F2.json", ("AddedLogsComplete",),
@@ -69,17 +69,13 @@ def run(ctx):
         viol = (r2.violated or "")
         if ok2:
             ctx.notes.append("%s: no longer reproduces (strict invariants hold on the kept replay)" % fid)
-        elif any(e in viol for e in expect):
-            # TODO-KNOWN-FINDING: KNOWN-FINDING once known_findings.json lists the id as open; until the
-            # coordinator decides it is reported as pending instead of VIOLATION
-            line = "PENDING-FINDING property=C38 %s reproduced on the real code (%s): %s" % (fid, viol.strip()[:80], what)
-            if not ctx.known_finding(fid, what):
-                print(line)
-            ctx.notes.append(line)
+        elif any(e in viol for e in expect) and ctx.known_finding(fid, what):
+            # recognised fingerprint of an open entry of known_findings.json: KNOWN-FINDING line, no violation
+            ctx.notes.append("%s reproduced on the real code (%s)" % (fid, viol.strip()[:80]))
         else:
             ctx.reject_trace("chain/ChainTrace", fp, c2, r2, cfg="chain/ChainTraceStrict",
-                             desc="%s replay violates an unexpected property: %s" % (fid, viol))
+                             desc="%s replay: strict specification rejects the real trace (%s) and the finding is not listed as open" % (fid, viol))
     return ctx.finish(rule="MC: all call orders over all trees of the bound, both schemes; R: TLC-sampled behaviours on larger trees; V: random trees and histories with restarts",
                       assumptions=["memory database, ethash faker, snapshots off (hash scheme)",
                                    "tx indexer limit 0 on a database already marked as indexed",
-                                   "strict invariants CanonLinked/CanonEndsAtHead/Lookup*/CacheCoherent and the exact events claim are checked outside the pending fingerprints C38-F1..F3 (NOTES.md)"])
+                                   "strict invariants CanonLinked/CanonEndsAtHead/Lookup*/CacheCoherent and the exact events claim are checked outside the ghost fingerprints of the open findings C38-F1..F3 (NOTES.md)"])
